@@ -374,6 +374,49 @@ class CFG:
                 work.append(m)
         return seen
 
+    def path_conditions(self, src: Node, dst: Node) -> List[Tuple[str, bool, Node]]:
+        """Branch conditions that hold on *every* path from ``src`` to ``dst`` (exception edges ignored): ``(term text, value, test
+        node)``.  ``not X`` is reported as ``(X, False)``; a conjunction that must be true / a disjunction that must be false is split
+        into its terms.  Independent of whether the code says ``if c: stmt`` or ``if not c: continue; stmt``."""
+        out: List[Tuple[str, bool, Node]] = []
+
+        def reachable_without(t: Node, lab: str) -> bool:
+            seen, st = {src}, [src]
+            while st:
+                n = st.pop()
+                if n is dst and n is not src:
+                    return True
+                for (m, l) in n.succ:
+                    if l == "exc" or m in seen or (n is t and l == lab):
+                        continue
+                    seen.add(m)
+                    st.append(m)
+            return dst in seen and dst is not src
+        for t in self.nodes:
+            if t.kind != "test" or t.ast is None:
+                continue
+            labs = {l for (_, l) in t.succ}
+            if not {"true", "false"} <= labs:
+                continue
+            need = None
+            if not reachable_without(t, "true"):
+                need = True
+            elif not reachable_without(t, "false"):
+                need = False
+            if need is None:
+                continue
+
+            def split(e: ast.AST, val: bool) -> None:
+                if isinstance(e, ast.UnaryOp) and isinstance(e.op, ast.Not):
+                    split(e.operand, not val)
+                elif isinstance(e, ast.BoolOp) and ((isinstance(e.op, ast.And) and val) or (isinstance(e.op, ast.Or) and not val)):
+                    for v in e.values:
+                        split(v, val)
+                else:
+                    out.append((ast.unparse(e), val, t))
+            split(t.ast, need)
+        return out
+
     def path_avoiding(self, src: Node, dst: Callable[[Node], bool], avoid: Callable[[Node], bool],
                       labels: Optional[Set[str]] = None) -> Optional[List[Node]]:
         """Shortest path from a successor of ``src`` to a node satisfying ``dst`` that never visits a node
